@@ -4,7 +4,7 @@
 From stdpp Require Import gmap.
 From DS Require Import Base RepoConstants Decimal StreamValue Aggregators Outcome OutcomeCodec ObservationCodec MercuryAgg MercuryReport
   TextForms EvmInt EvmCodecs EvmSpec PluginReports OutcomeCodecProofs EvmCodecProofs NoPanicProofs ReportsNoPanic.
-From DS Require Observe ValidateProofs MercuryWire.
+From DS Require Observe ValidateProofs MercuryWire MercuryObserve MercObserveProofs.
 
 Example C11_gen_widths_complete : evm_type_widths = solidity_widths.
 Proof. reflexivity. Qed.
@@ -141,3 +141,23 @@ Example C11_nv : let cf := {| c_f := 0; c_pver := 1; c_interval := 1; c_has_pred
   let ob := {| ob_att := NoAttest; ob_retire := false; ob_ts := 5; ob_removes := []; ob_updates := ∅; ob_values := ∅ |} in
   Forall (att_validated (c_has_pred cf)) [Some ob] /\ is_ok (outcome_step (fun _ _ => []) cf 2 (initial_outcome cf) [Some ob]) = true.
 Proof. cbv zeta. split; [repeat constructor; right; reflexivity|vm_compute; reflexivity]. Qed.
+
+(* ---- MercuryPlugin.Observation (v1-v4): never panics for a base-fee exponent the decimal library can divide with;
+   fails only when the data source as a whole fails (or, v2-v4, the clock is past 2^32 - 1 s); the single panic site of
+   the model (shopspring QuoRem's exponent overflow) is reachable only through the owner-set off-chain configuration *)
+Theorem C11_mercury_observation_total : forall ver base now fail ds,
+  MercuryObserve.int32_in (Decimal.dexp base + 16) = true ->
+  match MercuryObserve.merc_observe234 ver base now fail ds with
+  | Ok _ => fail = false /\ now <= MercuryReport.max_uint32
+  | Err _ => fail = true \/ MercuryReport.max_uint32 < now
+  | Panic _ => False
+  end.
+Proof. exact MercObserveProofs.merc_observation_total. Qed.
+Theorem C11_mercury_observation_panic_only_exponent : forall ver base now fail ds s,
+  MercuryObserve.merc_observe234 ver base now fail ds = Panic s -> MercuryObserve.int32_in (Decimal.dexp base + 16) = false.
+Proof. exact MercObserveProofs.merc_observation_panic_only_exponent. Qed.
+Theorem C11_mercury_observation1_total : forall now prev_nil fail ds,
+  match MercuryObserve.merc_observe1 now prev_nil fail ds with Ok _ => fail = false | Err _ => fail = true | Panic _ => False end.
+Proof. exact MercObserveProofs.merc_observation1_total. Qed.
+Print Assumptions C11_mercury_observation_total.
+Print Assumptions C11_mercury_observation1_total.
